@@ -1,8 +1,11 @@
 #![allow(dead_code)]
+mod astwalk;
 mod gram;
 mod lex;
 mod limits;
+mod names;
 mod parse;
+mod strs;
 mod util;
 
 fn main() {
@@ -20,6 +23,12 @@ fn main() {
         "parse-child" => parse::child(rest),
         "parse-gen" => parse::gen(rest),
         "limits-replay" => limits::replay(rest),
+        "names-replay" => names::replay(rest),
+        "names-record" => names::record(rest),
+        "str-replay" => strs::replay(rest),
+        "str-record" => strs::record(rest),
+        "str-roundtrip" => strs::roundtrip(rest),
+        "str-gen" => strs::gen_values(rest),
         _ => {
             eprintln!("unknown command {cmd:?}");
             std::process::exit(2);
